@@ -340,9 +340,9 @@ theorem central_loop_consumes (off n : Nat) {fa : Option Nat} {d d' : Dev} {file
 
 /-! ## 3. Memory, in elements -/
 
-/-- read.rs:413-417: the capacity handed to `Vec::with_capacity` / `HashMap::with_capacity`. -/
-def fileCapacity (numberOfFiles cdeStartPos : Nat) : Nat :=
-  if numberOfFiles > cdeStartPos then 0 else numberOfFiles
+/- `Model.fileCapacity` (Model/Reader.lean): the capacity handed to `Vec::with_capacity` /
+`HashMap::with_capacity` by `ZipArchive::new`.  `Tie/ReaderGlue.lean` (`tie_zip_archive_new`) shows that the
+TRANSLATED `ZipArchive::new` requests exactly the capacity that `openArchiveAlloc` reports. -/
 
 /-- The pre-allocation is at most `cde_start_pos` elements, and `cde_start_pos + 22 ≤ len` whenever
 the EOCD search succeeded: a declared count of 2^64 - 1 reserves nothing. -/
@@ -355,6 +355,17 @@ theorem prealloc_bound (numberOfFiles : Nat) {fa : Option Nat} {d d' : Dev} {e :
 
 example : fileCapacity 18446744073709551615 1000 = 0 := by decide
 example : fileCapacity 3 1000 = 3 := by decide
+
+/-- The capacity `ZipArchive::new` requests before it has validated a single central header
+(`openArchiveAlloc` is the model function the translated source is tied to): at most `len - 22` elements,
+whatever count the archive declares, and exactly the declared count only when that count does not exceed the
+position of the end record. -/
+theorem open_prealloc_bound {fa : Option Nat} {d d' : Dev} {a : Archive} {cap : Nat}
+    (h : openArchiveAlloc fa d = (.ok (a, cap), d')) :
+    cap + 22 ≤ d.buf.length ∧ a.files.length ≤ d.buf.length / 46 := by
+  obtain ⟨hfiles, e, cde, d1, n, h1, hcap⟩ := openArchiveAlloc_bounds h
+  have hb := prealloc_bound n h1
+  refine ⟨by omega, by omega⟩
 
 /-- Every transient buffer of the parsers (`vec![0; n]` for the archive comment, entry names, extra
 fields, entry comments) has a 16-bit length: the lengths come from `u16` fields, and a successful
@@ -405,6 +416,11 @@ example : outcome (openArchive.runPure (Dev.ofBytes (List.replicate 21 0))).1 = 
 def emptyZip : Bytes := [0x50, 0x4b, 0x05, 0x06] ++ List.replicate 18 0
 
 example : okEntries (openArchive.runPure (Dev.ofBytes emptyZip)).1 = some 0 := by decide +kernel
+
+/-- `open_prealloc_bound` is not vacuous: the tied function succeeds on it, requesting no memory. -/
+example : (match (openArchiveAlloc.runPure (Dev.ofBytes emptyZip)).1 with
+    | .ok (a, cap) => a.files.length == 0 && cap == 0
+    | _ => false) = true := by decide +kernel
 
 /-- Every proper prefix of it is rejected (an interrupted write), by all three openers. -/
 example : ∀ n < 22,
